@@ -1,11 +1,23 @@
 import GardenVerif.Model.BigStep
 /-! Helper lemmas for C05: the machine model M4 refines the big-step reference interpreter M5.
 
-`Q` = a machine state of an uninterrupted, unlimited run (`garden run`); `runN` iterates
-`Machine.step`; `MS` = "the call stack gets from here to there by machine steps" (sound w.r.t.
-`Machine.step`: `MS_sound`); `Concl` / `Holds` = the simulation statement for one expression in
-an arbitrary frame context (callers `cs`, pending entries `K`, values `V`); one lemma per node
-kind; `sim` = the simulation lemma, by induction on the big-step fuel. -/
+* `Q` = a machine state of an uninterrupted, unlimited run (`garden run`); `runN` iterates
+  `Machine.step`; `MS` = "the call stack gets from here to there by machine steps" (dispatch in
+  the top frame, call, frame return), sound w.r.t. `Machine.step` (`MS_sound`).
+* `Concl` / `Holds` = the simulation statement for one expression in an arbitrary frame context
+  (callers `cs`, pending entries `K`, values `V`, any non-empty scopes) with clauses for value,
+  error, `break`, `continue`, `return`.
+* One machine lemma per node kind and state (`d_*`, `*_PW`, `*_PD`, `*_E`, `evalCall_builtin1`,
+  `matchCases_select`, …); `sim_rtl` (operands right-to-left), `sim_seq` (block statements),
+  `leave_block` (block owners `if` / `match`), `while_step` / `for_loop` (loops and exits),
+  `sim_fun_body` / `apHolds_checked` (frames, closures, named functions).
+* `sim_succ_a/b/c`, `sim2`: the simulation by induction on the big-step fuel, for the reference
+  interpreter with the fragment check made dynamic at closure calls (`applyChecked`).
+* `vok`, `Agree`, `agree`, `runProgram_checked_eq`: on programs of the fragment that interpreter is
+  `BigStep.eval` (every closure value carries a body of the fragment).
+* `refines_of_IH`: from the simulation to runs of `Machine.step` from `Machine.init`.
+
+This file is assembled from parts developed separately (one section per part). -/
 set_option linter.unusedVariables false
 set_option linter.unusedSimpArgs false
 namespace BigStepLemmas
